@@ -83,7 +83,8 @@ func c06Build(c *choice.Stream) *c06Case {
 		blk := DrawBlock(c, cols, rows)
 		for i := range blk.Cols {
 			// the type string the library itself would put on the wire
-			if col, err := gen.NewCol(cols[i].Type); err == nil {
+			if col, err := gen.NewCol(cols[i].Type); err == nil && blk.Cols[i].Type == cols[i].Type {
+				// (a server spelling such as Decimal(39, 10) stays as drawn)
 				blk.Cols[i].Type = string(col.Type())
 			}
 		}
